@@ -510,6 +510,7 @@ def o177(ctx):
 def _obligations():
     return [
         Obligation("O17.10", "dimensions_load: an N x 4 table comes back as given, one triplet is repeated per listed tomogram (shared with C09)", _c09.o99, floor=10),
+        Obligation("O17.11", "gctf defocus files: the STAR reader followed on literal texts (shared with C02)", _star.o26, floor=230),
         Obligation("O17.8", "z_shift_load(number) hands the value back unchanged, Python number or numpy scalar", o178, floor=2),
         Obligation("O17.9", "wedge lists on disk: the STAR writer's header and row text read back to the table (shared with C02)",
                    lambda ctx: (_star.o23(ctx), _star.o25(ctx)), floor=200),
